@@ -50,7 +50,7 @@ def check_var(g, v, ctx, tag="output"):
     try:
         got = v.da.compute()
     except Exception as e:
-        return ("compute_raises", short_tb(e), baked_grid_key(f"raise:{type(e).__name__}:{exc_site(e)}:{msg_key(e)}", g.closure(v.id)) + z)
+        return ("compute_raises", short_tb(e), (f"raise:{type(e).__name__}:{exc_site(e)}:{msg_key(e)}" if z else baked_grid_key(f"raise:{type(e).__name__}:{exc_site(e)}:{msg_key(e)}", g.closure(v.id))) + z)
     r = same(v.np, got, v.inx, v.mag, eps=v.eps)
     if r is not None:
         step = g.steps[v.id]
